@@ -64,7 +64,7 @@ def make_case(spec, knobs, aux=None, choices=None):
 def gen_cases(prop, seed):
     """all the cases that one seed stands for"""
     rng = random.Random(seed)
-    if prop in ('C01', 'C02', 'C03') and seed % 4 == 0:
+    if prop in ('C01', 'C02', 'C03', 'C12') and seed % 4 == 0:
         # a history of construction / query / surgery calls, then run():
         # judged by the history engine, reported under this property
         from .hgen import gen_history
@@ -72,6 +72,12 @@ def gen_cases(prop, seed):
     if prop in ('C02', 'C12', 'C01', 'C03') and seed % 10 == 1:
         top, knobs = gen.gen_motif(seed)
         return [make_case(top, knobs, {"motif": True})]
+    if prop == 'C06' and seed % 10 == 1:
+        # the motifs as return<->raise twins: j1 is the switched job
+        top, knobs = gen.gen_motif(seed)
+        nodes, _ = S.index(top)
+        nodes['j1']['outcome'], nodes['j1']['critical'] = 'ret', False
+        return [make_case(top, knobs, {"motif": True, "switch": "j1"})]
     if prop == 'C10' and seed % 2:
         top, feat = gen.gen_tree(rng, FLAT_PROFILE)
         _make_flattenable(top)
